@@ -27,7 +27,7 @@ RULE = (
     "distinct = (document, raise point, handler); non-trivial = the raise point was reached (model event) and, "
     "for handled cases, output continued after the handler."
 )
-RULE += ' added since: caller probes, raising default arguments of nested defs, BaseException subclasses raised at every point (handlers catching Exception must not see them), format_exceptions with output_encoding (bytes), defs decorated with supports_caller.'
+RULE += ' added since: caller probes, raising default arguments of nested defs, BaseException subclasses raised at every point (handlers catching Exception must not see them), format_exceptions with output_encoding (bytes), defs decorated with supports_caller. error_handler and format_exceptions also for exceptions deriving from BaseException only.'
 ASSUMPTIONS = [
     "reference interpreter mk/tdoc.py; exceptions are raised by harness-provided objects so identity is checkable",
     "raise points are positions between nodes of the document; Python-level faults inside Mako's own runtime "
